@@ -682,6 +682,7 @@ class BaseConnector:
             if self._limit_per_host:
                 self._acquired_per_host[key].add(placeholder)
 
+            created: ResponseHandler | None = None
             try:
                 # Traces are done inside the try block to ensure that the
                 # that the placeholder is still cleaned up if an exception
@@ -689,11 +690,14 @@ class BaseConnector:
                 if traces:
                     for trace in traces:
                         await trace.send_connection_create_start()
-                proto = await self._create_connection(req, traces, timeout)
+                proto = created = await self._create_connection(req, traces, timeout)
                 if traces:
                     for trace in traces:
                         await trace.send_connection_create_end()
             except BaseException:
+                if created is not None:
+                    # Nobody else knows about the new connection yet
+                    created.close()
                 self._release_acquired(key, placeholder)
                 raise
             else:
@@ -790,6 +794,8 @@ class BaseConnector:
                         try:
                             await trace.send_connection_reuseconn()
                         except BaseException:
+                            # It is in neither the pool nor anybody's hands
+                            proto.close()
                             self._release_acquired(key, proto)
                             raise
                 return Connection(self, key, proto, self._loop)
